@@ -1011,7 +1011,7 @@ func checkIPv6(data string) bool {
 			if len(f) > 4 {
 				return false
 			}
-			n := std.Atoi(f, 16)
+			n := std.Atoi("0"+f, 16) // std.Atoi(_, 16) reads a leading digit of 8..f as a sign
 			if 65535 < n {
 				panic("fragment overflows uint16: " + f)
 			}
